@@ -34,7 +34,7 @@
 
 use self::errors::*;
 use crate::temporal::ym_duration::FeelYearsAndMonthsDuration;
-use crate::temporal::{after, after_or_equal, before, before_or_equal, between, equal, weekday, FeelDateTime, FeelTime};
+use crate::temporal::{weekday, FeelDateTime, FeelTime};
 use crate::FeelNumber;
 use chrono::{DateTime, Datelike, FixedOffset, Local};
 use dmntk_common::DmntkError;
@@ -154,41 +154,40 @@ impl FeelDate {
     let today = Local::today();
     Self(today.year(), today.month() as u8, today.day() as u8)
   }
+  /// Compares this date with the other date on the calendar, the result is [None]
+  /// when any of the two values is not a valid date.
+  fn compare(&self, other: &Self) -> Option<Ordering> {
+    if is_valid_date(self.0, self.1, self.2) && is_valid_date(other.0, other.1, other.2) {
+      Some((self.0, self.1, self.2).cmp(&(other.0, other.1, other.2)))
+    } else {
+      None
+    }
+  }
   ///
   pub fn equal(&self, other: &Self) -> Option<bool> {
-    let midnight = FeelTime::utc(0, 0, 0, 0);
-    equal(&FeelDateTime(self.clone(), midnight.clone()), &FeelDateTime(other.clone(), midnight))
+    self.compare(other).map(|ordering| ordering == Ordering::Equal)
   }
   ///
   pub fn before(&self, other: &Self) -> Option<bool> {
-    let midnight = FeelTime::utc(0, 0, 0, 0);
-    before(&FeelDateTime(self.clone(), midnight.clone()), &FeelDateTime(other.clone(), midnight))
+    self.compare(other).map(|ordering| ordering == Ordering::Less)
   }
   ///
   pub fn before_or_equal(&self, other: &Self) -> Option<bool> {
-    let midnight = FeelTime::utc(0, 0, 0, 0);
-    before_or_equal(&FeelDateTime(self.clone(), midnight.clone()), &FeelDateTime(other.clone(), midnight))
+    self.compare(other).map(|ordering| ordering != Ordering::Greater)
   }
   ///
   pub fn after(&self, other: &Self) -> Option<bool> {
-    let midnight = FeelTime::utc(0, 0, 0, 0);
-    after(&FeelDateTime(self.clone(), midnight.clone()), &FeelDateTime(other.clone(), midnight))
+    self.compare(other).map(|ordering| ordering == Ordering::Greater)
   }
   ///
   pub fn after_or_equal(&self, other: &Self) -> Option<bool> {
-    let midnight = FeelTime::utc(0, 0, 0, 0);
-    after_or_equal(&FeelDateTime(self.clone(), midnight.clone()), &FeelDateTime(other.clone(), midnight))
+    self.compare(other).map(|ordering| ordering != Ordering::Less)
   }
   ///
   pub fn between(&self, left: &Self, right: &Self, left_closed: bool, right_closed: bool) -> Option<bool> {
-    let midnight = FeelTime::utc(0, 0, 0, 0);
-    between(
-      &FeelDateTime(self.clone(), midnight.clone()),
-      &FeelDateTime(left.clone(), midnight.clone()),
-      &FeelDateTime(right.clone(), midnight),
-      left_closed,
-      right_closed,
-    )
+    let left_ok = if left_closed { self.after_or_equal(left) } else { self.after(left) };
+    let right_ok = if right_closed { self.before_or_equal(right) } else { self.before(right) };
+    left_ok.zip(right_ok).map(|(left_result, right_result)| left_result && right_result)
   }
   ///
   pub fn ym_duration(&self, other: &FeelDate) -> FeelYearsAndMonthsDuration {
